@@ -274,6 +274,44 @@ def r6d(fb, rep):
     rep.floor(R, "recover_cycle functions", n, 3)
 
 
+def r6e(fb, rep):
+    """a peeked query result is never used in place of running the query: `peek` returns whatever an *earlier revision* stored"""
+    R = "R6e"
+    rep.rule(R, "the importer's salvaged type comes from a module_type query that was run in this revision (never peek-then-skip)")
+    n = 0
+    for bid, b in fb.pre.items():
+        if b.crate.name != "gluon" or "as gluon::import::Importer>::import" not in bid:
+            continue
+        q = [c for c in b.calls() if c.res.endswith("AsyncCompilation>::module_type") or c.res.endswith("::module_type") and "peek" not in c.res]
+        peeks_here = [c for c in b.calls() if c.res.endswith("::peek_module_type")]
+        peek_closures = [cl for cl in fb.closures_of(bid) if any(c.res.endswith("::peek_module_type") for c in cl.calls())]
+        users = []
+        for i, j, pl, rv, ln in b.assigns():
+            if rv[0] == "agg" and rv[1][0] == "closure" and any(rv[1][1] == cl.id for cl in peek_closures):
+                users.append(i)
+        if not (peeks_here or users):
+            continue
+        n += 1
+        qb = [c.bb for c in q]
+        bad = False
+        why = ""
+        if not q:
+            bad, why = True, "the module_type query is never run"
+        else:
+            for c in peeks_here:
+                if not any(b.dominates(x, c.bb) for x in qb):
+                    bad, why = True, "peek_module_type is consulted before (or instead of) running the query"
+            for u in users:
+                if u in b.reachable(0, avoid_blocks=qb):
+                    bad, why = True, "the salvage closure can be reached without running the module_type query"
+        if bad:
+            rep.violation(R, "stale-peek|%s" % bid.split("::{closure")[0], "%s: %s: after a dependency is reloaded with an error of its own the importer is checked against the "
+                          "type the dependency had in an earlier revision" % (bid.split("::{closure")[0], why), b.where())
+        else:
+            rep.ok(R, "%s: module_type(modulename) is awaited on every path before its result is peeked" % bid.split("::{closure")[0])
+    rep.floor(R, "importers that peek module_type", n, 1)
+
+
 def run(fb, rep, tier, cfg):
     rep.explanation = (
         "Static analysis of the salsa query group as rustc resolved it. R6a reads each query's Storage associated type "
@@ -287,5 +325,6 @@ def run(fb, rep, tier, cfg):
                         "virtual calls through `dyn Compilation` are query boundaries"]
     r6a(fb, rep)
     r6b(fb, rep)
+    r6e(fb, rep)
     r6c(fb, rep)
     r6d(fb, rep)
